@@ -42,7 +42,8 @@ def strategy(tier):
     # the operation under test is often preceded by other public calls (the property quantifies over histories)
     hist = ["op", "op", "op", "op", "measure", "kraus", "struct", "comp", "resize"]
     return st.one_of(S.program_case(["op"], max_steps=3), S.program_case(["op"], max_steps=3), S.program_case(hist, max_steps=5, min_steps=2),
-                     S.lifecycle_case(tail_kinds=("op", "op", "bigop"), max_tail=3))
+                     S.lifecycle_case(tail_kinds=("op", "op", "bigop"), max_tail=3),
+                     S.survivor_case(touches=("fockop", "fockop", "op", "op", "resize")))
 
 
 def worker_init():
